@@ -304,6 +304,28 @@ func init() {
 	reg("Bounds.OverlapsPoint", []string{"bd", "c"}, func(c *Call, a []*item) any {
 		return a[0].bd.OverlapsPoint(geom.XY, a[1].c)
 	})
+	reg("Bounds.Extend(fresh, g)", []string{"g"}, func(c *Call, a []*item) any {
+		b := geom.NewBounds(geom.Layout(idx(c.I, 5))).Extend(a[0].g)
+		out := []any{int(b.Layout())}
+		for i := 0; i < b.Layout().Stride(); i++ {
+			out = append(out, b.Min(i), b.Max(i))
+		}
+		return out
+	})
+	reg("Coord.Set(fresh, c)", []string{"c"}, func(c *Call, a []*item) any {
+		dst := make(geom.Coord, len(a[0].c))
+		dst.Set(a[0].c)
+		return dst
+	})
+	reg("LineString.SubLineString", []string{"g:LineString"}, func(c *Call, a []*item) any {
+		g := a[0].g.(*geom.LineString)
+		n := g.NumCoords()
+		if n == 0 {
+			return "empty"
+		}
+		i := idx(c.I, n)
+		return geom.T(g.SubLineString(i, n))
+	})
 	reg("Coord.Clone+Equal", []string{"c", "c"}, func(c *Call, a []*item) any {
 		return []any{a[0].c.Clone(), a[0].c.Equal(geom.XY, a[1].c)}
 	})
